@@ -73,6 +73,8 @@ Section WFDefs.
         (selfloops (sp g) = false -> fst k <> snd k);
     wf_emap : forall i j,
         group_idx g i j = if directed (sp g) || Nat.leb i j then grp_of g i j else None;
+    wf_emkeys : NoDup (keys (edges_map g)) /\
+                forall i m, lookup Nat.eqb i (edges_map g) = Some m -> NoDup (keys m);
     wf_sv : length (successors_vec g) = nn g /\
             forall i row, nth_error (successors_vec g) i = Some row -> row_ok (sp g) (grp_of g i) row;
     wf_pv : length (predecessors_vec g) = nn g /\
